@@ -23,6 +23,8 @@ Definition fine1 {A} (bs : bytes) (r : res A) : Prop :=
   | OutOfFuel => False
   end.
 
+Definition res_is_err {A} (r : res A) : bool := match r with Err _ _ => true | _ => false end.
+
 Definition safe_on {A} (n : nat) (d : dec A) : Prop := forall bs, (length bs <= n)%nat -> fine bs (d bs).
 Definition strict_on {A} (n : nat) (d : dec A) : Prop := forall bs, (length bs <= n)%nat -> fine1 bs (d bs).
 
@@ -296,13 +298,14 @@ Section Rec.
     apply safe_bind; [safe_step|]. intros alen.
     destruct (max_variant_array_length <? alen); [apply safe_fail|].
     destruct (alen <? -1); [apply safe_fail|].
+    apply safe_bind; [apply safe_remaining|]. intros rem. destruct (rem <? alen); [apply safe_fail|].
     apply safe_bind.
     { destruct (alen =? -1); [apply safe_ret|].
       apply safe_bind; [apply safe_tick|]. intros _.
       apply safe_bind; [apply dec_n_safe; apply dec_builtin_below; exact Hk|]. intros l. apply safe_ret. }
     intros vals. apply safe_bind.
     { destruct (bit mask 6); [|apply safe_ret].
-      apply safe_bind; [safe_step|]. intros dl. destruct (dl <? 0); [apply safe_fail|].
+      apply safe_bind; [safe_step|]. intros dl. destruct ((dl <? 0) || (max_variant_array_dimensions <? dl)); [apply safe_fail|].
       apply safe_bind; [apply safe_remaining|]. intros r. destruct (r / 4 <? dl); [apply safe_fail|].
       apply safe_bind; [apply safe_tick|]. intros _.
       apply safe_bind; [apply dec_n_safe; apply dec_dim_safe|]. intros ds. apply safe_ret. }
@@ -400,11 +403,11 @@ Section Main.
   Lemma ptr_ok_elem : forall e, ptr_ok (TPtr e) = true -> ptr_ok e = true.
   Proof. intros e H. destruct e; try discriminate; try reflexivity; exact H. Qed.
 
-  (* main invariant: at nesting budget f, every input shorter than f is decoded without Panic / OutOfFuel *)
-  Theorem decode_safe : forall f t n, ptr_ok t = true -> (n < f)%nat -> safe_on n (decode reg f t).
+  (* one nesting level: if what is nested further down is safe on every strictly shorter input, this level is safe *)
+  Lemma dec_level_safe : forall rec allow n, (forall t k, ptr_ok t = true -> (k < n)%nat -> safe_on k (rec t)) ->
+    forall t, ptr_ok t = true -> safe_on n (dec_level reg rec allow t).
   Proof.
-    induction f as [|f IHf]; intros t n Ht Hn; [lia|].
-    revert Ht. induction t using ty_ind'; intros Ht; cbn [decode].
+    intros rec allow n Hrec t. induction t using ty_ind'; intros Ht; cbn [dec_level].
     - apply safe_bind; [safe_step|]. intros b. apply safe_ret.
     - apply safe_bind; [destruct s; safe_step|]. intros z. apply safe_ret.
     - apply safe_bind; [safe_step|]. intros z. apply safe_ret.
@@ -417,11 +420,22 @@ Section Main.
       cbn [ptr_ok] in Ht. rewrite forallb_forall in Ht.
       rewrite Forall_forall in H. apply Forall_forall. intros d Hd. apply in_map_iff in Hd.
       destruct Hd as [x [Hx Hin]]. subst d. apply H; [exact Hin|]. apply Ht. exact Hin.
-    - apply dec_custom_safe; [exact Hreg|]. intros t k Hpt Hk. apply IHf; [exact Hpt|lia].
+    - destruct (nested c && negb allow).
+      + apply safe_bind; [apply safe_tick|]. intros _. apply safe_fail.
+      + apply dec_custom_safe; [exact Hreg|exact Hrec].
+  Qed.
+
+  (* main invariant: whatever nesting levels are left, every input is decoded without Panic / OutOfFuel: the nesting
+     limit turns what used to be unbounded recursion into an error *)
+  Theorem decode_safe : forall f t n, ptr_ok t = true -> safe_on n (decode reg f t).
+  Proof.
+    induction f as [|f IHf]; intros t n Ht; cbn [decode].
+    - apply dec_level_safe; [|exact Ht]. intros t' k _ _. apply safe_fail.
+    - apply dec_level_safe; [|exact Ht]. intros t' k Ht' _. apply IHf. exact Ht'.
   Qed.
 End Main.
 
-(* ------------------------------------------------------------------ nesting depth = Go recursion depth *)
+(* ------------------------------------------------------------------ the nesting limit *)
 Lemma read_byte_cons : forall b r, read_byte (b :: r) = Ok (Z_of_byte b + 256 * 0) r 0.
 Proof.
   intros b r. unfold read_byte, read_u, bind, read_n. cbn [Z.of_nat Z.ltb Z.compare Pos.of_succ_nat].
@@ -432,13 +446,15 @@ Qed.
 
 Section Deep.
   Variable reg : list (Z * Z * ty).
-  (* a chain of f scalar Variants of type Variant (mask 0x18) exhausts a nesting budget of f *)
-  Lemma deep_variant : forall f, decode reg f (TCustom CVariant) (repeat x18 f) = OutOfFuel.
+  (* a chain of scalar Variants of type Variant (mask 0x18) one longer than the levels left is rejected with an error
+     after f + 1 steps (before the fix of ua.MaxNestingLevel: unbounded recursion, Go's stack overflow) *)
+  Lemma deep_variant : forall f bs, res_is_err (decode reg f (TCustom CVariant) (repeat x18 f ++ bs)) = true.
   Proof.
-    induction f as [|f IH]; [reflexivity|].
-    cbn [repeat]. cbn [decode dec_custom]. unfold dec_variant.
+    induction f as [|f IH]; intros bs; [reflexivity|].
+    cbn [repeat app]. cbn [decode dec_level nested andb negb dec_custom]. unfold dec_variant.
     unfold bind at 1. cbn [tick]. unfold bind at 1. rewrite read_byte_cons.
-    cbn -[decode dec_n]. unfold dec_builtin. cbn -[decode]. unfold bind at 1. rewrite IH. reflexivity.
+    cbn -[decode dec_n]. unfold dec_builtin. cbn -[decode]. unfold bind at 1.
+    specialize (IH bs). destruct (decode reg f (TCustom CVariant) (repeat x18 f ++ bs)); try discriminate. reflexivity.
   Qed.
 End Deep.
 
